@@ -22,7 +22,9 @@ import SleapVerif.Model.Grouping
                       `2E` takes part in the `max`, as coded).
 * `lineScore`       — `score_paf_lines`: mean over the sampled points of `paf · unit(dst-src)`,
                       plus the penalty.
-* matching/grouping — `Grouping` (C08) with scipy's answer per edge as a parameter.
+* matching/grouping — `Grouping` (C08) with scipy's answer per edge as a parameter (so the same
+                      model covers the pinned code and the code after the C03 fix, which only
+                      changes the matrix scipy sees: `clampLow`).
 * `decode`          — `/ input_scale`, then `/ eff_scale[sample]`.
 * `keepTop`         — `BottomUpPredictor._make_labeled_frames_from_generator`: stable sort by
                       score, descending, first `max_instances`.
@@ -164,6 +166,13 @@ def lineScore (sqrt : R → R) (castI : Int → R) (F : Int → Int → Nat → 
     + penalty maxLen (segLen sqrt src dst) weight
 
 end score
+
+/-! ## the repaired matching (`fixes/C03-match-ignores-rejected.patch`) -/
+
+/-- after the fix `match_candidates_sample` builds the cost matrix from these scores: every
+candidate below `min_line_scores` gets the common rejected score `min_line_scores - 1` -/
+def clampLow [Sub R] [LT R] [DecidableLT R] [OfNat R 1] (thr : R) (sc : Nat → Nat → R) (i j : Nat) : R :=
+  if sc i j < thr then thr - 1 else sc i j
 
 /-! ## decode -/
 
